@@ -84,7 +84,9 @@ def build_case(case):
     for i, ev in enumerate(case["events"]):
         kind = ev["kind"]
         st = t0 + timedelta(seconds=ev["t0"])
-        en = t0 + timedelta(seconds=ev.get("t1", ev["t0"]))
+        # "cfg_t1": an INSTANTANEOUS event (impulse, addition, removal) whose configuration carries a later end time -
+        # the specification's event is still the instant t0 (exactly one delivery, one application)
+        en = t0 + timedelta(seconds=ev.get("cfg_t1", ev.get("t1", ev["t0"])))
         eid = f"ev{i}"
         eng_idx = ev.get("engine", 0)
         eng_id = engines[eng_idx]["unique_id"]
@@ -251,6 +253,17 @@ def make_cases(ctx: Ctx, rng):
             add(start, step, [{"kind": "addTarget", "t0": j * step}])
             add(start, step, [{"kind": "addSensor", "t0": (j - 1) * step + 1}, {"kind": "removeTarget", "t0": min(n, j + 1) * step, "index": 1}])
             add(start, step, [{"kind": "removeSensor", "t0": j * step, "index": 1}])
+            # instantaneous events configured with a LATER end time (D51, D53, D56): delivered and applied exactly once, the
+            # run goes on - starting on a boundary and inside a step, ending inside the span and beyond it
+            j = rng.randint(1, n - 1)
+            k = rng.choice([(j + 1) * step, n * step + 1, j * step + 1, (n + 2) * step])
+            add(start, step, [{"kind": "impulse", "t0": j * step, "cfg_t1": k, "planned": si % 2 == 0}])
+            add(start, step, [{"kind": "impulse", "t0": (j - 1) * step + 1, "cfg_t1": k, "planned": si % 2 == 1, "frame": "ntw"}])
+            if not ctx.quick or (si + step) % 2 == 0:
+                add(start, step, [{"kind": "addTarget", "t0": j * step, "cfg_t1": k},
+                                  {"kind": "removeSensor", "t0": (j - 1) * step + 1, "cfg_t1": (n + 1) * step, "index": 1}])
+                add(start, step, [{"kind": "addSensor", "t0": (j - 1) * step + 1, "cfg_t1": k},
+                                  {"kind": "removeTarget", "t0": j * step, "cfg_t1": n * step, "index": 1}])
             # durations: priority for the second engine, bias on a sensor, burn on a target
             a = rng.randint(1, n - 1)
             b = rng.randint(a + 1, n + 1)
